@@ -653,10 +653,10 @@ func groupBy(c *core.Ctx) error {
 // that the generated inputs now steer around (so that they do not mask
 // everything else); the oracle is the same naive evaluation.
 func probes(c *core.Ctx) error {
-	// Rows whose record type lacks the key field: every generated input writes
-	// the missing key as k:error("missing") in column 0, because the operator
-	// evaluates one cached field reference on input rows (query type context)
-	// and on spilled rows (the spiller's private context) alike.
+	// F-C10-7 (fixed by 98bf2dc59): the operator evaluates one cached field
+	// reference (expr.DotExpr caches the column by type ID) on input rows and on
+	// spilled rows; the spilled rows used to be decoded into a private type
+	// context whose ids collide with the query's.
 	rows := []inRow{{ID: 1, Key: key{P: "I1"}}, {ID: 2, Key: key{P: "I2"}}, {ID: 3, Key: key{P: "MISS"}}}
 	j := gbJob{CaseKey: "probe:absent-key-field", How: "probe", Rows: rows, Agg: "n",
 		Task: task{ID: 0, Kind: "gb", SortKey: "asc",
